@@ -1947,7 +1947,7 @@ class MainProvider(ResolverMixin, BaseProvider):
         klasses = [class_store.get(cln) for cln in ref_clns]
         for cl in klasses:
             # Count reference property usage.
-            pd = Counter([p.reference_class for p in
+            pd = Counter([p.reference_class.lower() for p in
                           cl.properties.values()
                           if p.type == 'reference'])
             single_use = [p for p, v in pd.items() if v == 1]
@@ -1960,8 +1960,10 @@ class MainProvider(ResolverMixin, BaseProvider):
                                                 result_classes,
                                                 result_role):
                         # Test of referemce cln same as source class
-                        if prop.reference_class == classname and \
-                                prop.reference_class in single_use:
+                        # (class names are case insensitive)
+                        ref_cln_lc = prop.reference_class.lower()
+                        if ref_cln_lc == classname.lower() and \
+                                ref_cln_lc in single_use:
                             continue
 
                         rtn_classnames_set.add(prop.reference_class)
